@@ -3,6 +3,8 @@ package concd
 import (
 	"math/rand"
 	"sort"
+	"sync/atomic"
+	"time"
 
 	"github.com/biogo/biogo/concurrent"
 
@@ -41,5 +43,46 @@ func MapCalls(w *vt.W, rng *rand.Rand, nrandom int, exhaustive bool) {
 	}
 	for i := 0; i < nrandom; i++ {
 		one(rng.Intn(200), 1+rng.Intn(16), 1+rng.Intn(40))
+	}
+}
+
+// LazyRuns exercises concurrent.Lazily with a counting evaluator.
+func LazyRuns(w *vt.W, rng *rand.Rand, runs int) {
+	for id := 0; id < runs; id++ {
+		la := rng.Intn(5)
+		calls := 1 + rng.Intn(30)
+		reapAt := -1
+		if rng.Intn(2) == 0 {
+			reapAt = rng.Intn(calls)
+		}
+		var produced int32
+		reaper := make(chan struct{})
+		next := concurrent.Lazily(func(state ...interface{}) (interface{}, concurrent.State) {
+			n := state[0].(int) + 1
+			atomic.StoreInt32(&produced, int32(n))
+			return n, concurrent.State{n}
+		}, la, reaper, 0)
+		values := []int{}
+		ahead := 0
+		for c := 0; c < calls; c++ {
+			if c == reapAt {
+				close(reaper)
+			}
+			if rng.Intn(3) == 0 {
+				time.Sleep(time.Duration(rng.Intn(200)) * time.Microsecond)
+			}
+			v := next()
+			n, _ := v.(int)
+			values = append(values, n)
+			if n > 0 {
+				if a := int(atomic.LoadInt32(&produced)) - n; a > ahead {
+					ahead = a
+				}
+			}
+		}
+		if reapAt < 0 {
+			close(reaper)
+		}
+		w.Emit(vt.Ev{"op": "lazy", "id": id, "la": la, "values": values, "ahead": ahead, "reapat": reapAt})
 	}
 }
